@@ -83,6 +83,19 @@ fn main() {
                         fam_bdd::gen_exh((size / 10).max(1), size % 10, &mut out)
                     }
                 }
+                "bdd" if extra.iter().any(|x| x == "deepcount") => {
+                    // counts on deep diagrams: up to 64 levels the numbers fit a machine word
+                    for case in 0..cases {
+                        out.line(&format!("case bdddeep-{case}"));
+                        out.line(&format!("qdeep {}", r.range(2, 64)));
+                        out.line(&format!("qdeep {}", [62, 63, 64][r.usize(3)]));
+                        if case == 0 {
+                            // probes of the recorded finding D13 (beyond 64 levels the counts do not fit)
+                            out.line("qdeep 65");
+                            out.line("qdeep 70");
+                        }
+                    }
+                }
                 "bdd" if extra.iter().any(|x| x == "big") => fam_bdd::gen_big(&mut r, cases, size, &mut out),
                 "bdd" => fam_bdd::gen(&mut r, cases, size, &mut out),
                 "adf" => fam_adf::gen(&mut r, cases, size, &extra, &mut out),
